@@ -560,6 +560,73 @@ def rule_r10(ctx) -> List[R.Inst]:
     return insts
 
 
+def rule_r11(ctx) -> List[R.Inst]:
+    """the four accessor generators of Property.py: each generated property reads / writes its own key of the right store"""
+    M = ctx.M
+    mod = M.mods["reamber.base.Property"]
+    file = mod.rel
+    want = {"item_props": ("self.data[k_]", "self.data[k_]"), "list_props": ("self.df[k_]", "self.df[k_]"),
+            "map_props": ("self.objs[k_]", "self.objs[k_].df"), "stack_props": ("self[k_]", "self[k_]")}
+    insts = []
+    for deco, (gwant, swant) in want.items():
+        top = [n for n in mod.tree.body if isinstance(n, ast.FunctionDef) and n.name == deco]
+        if len(top) != 1:
+            insts.append(R.undec("C16.R11", f"{deco}", file, 0, "decorator not found"))
+            continue
+        loops = [n for n in ast.walk(top[0]) if isinstance(n, ast.For) and any(
+            isinstance(x, ast.FunctionDef) and x.name == "getter" for x in n.body)]
+        if len(loops) != 1:
+            insts.append(R.undec("C16.R11", f"{deco}", file, top[0].lineno, "per-key loop with getter/setter not found"))
+            continue
+        lp = loops[0]
+        kvar = [x.id for x in ast.walk(lp.target) if isinstance(x, ast.Name)][0]
+        fns = {x.name: x for x in lp.body if isinstance(x, ast.FunctionDef)}
+        for nm in ("getter", "setter"):
+            f = fns.get(nm)
+            key = f"{deco}.{nm}"
+            if f is None:
+                insts.append(R.viol("C16.R11", key, file, lp.lineno, f"no {nm} is generated", construct=f"{deco} lacks {nm}"))
+                continue
+            # the key must be bound per iteration (default argument), not captured late
+            args = f.args.args
+            dflt = dict(zip([a.arg for a in args][::-1], f.args.defaults[::-1]))
+            bound = [a for a, d in dflt.items() if isinstance(d, ast.Name) and d.id == kvar]
+            late = any(isinstance(x, ast.Name) and x.id == kvar for b in f.body for x in ast.walk(b))
+            if not bound or late:
+                insts.append(R.viol("C16.R11", key, file, f.lineno,
+                                    f"the generated {nm} uses the loop variable '{kvar}' itself instead of a per-iteration default "
+                                    f"argument: closures bind late, so every generated property would address the LAST key",
+                                    construct=f"{deco}.{nm} late-binds {kvar}"))
+                continue
+            kb = bound[0]
+            if nm == "getter":
+                rets = [x for x in ast.walk(f) if isinstance(x, ast.Return) and x.value is not None]
+                got = unparse(rets[0].value).replace(kb, "k_") if len(rets) == 1 else None
+                if got is not None and got.startswith(gwant):
+                    insts.append(R.ok("C16.R11", key, file, f.lineno, idiom=f"return {got}"))
+                else:
+                    insts.append(R.viol("C16.R11", key, file, f.lineno,
+                                        f"the generated getter returns '{got}', not '{gwant}' (the live column / list of its own key)",
+                                        construct=f"{deco}.getter: {got}"))
+            else:
+                stores = [x for x in ast.walk(f) if isinstance(x, ast.Assign)]
+                tg = {unparse(x.targets[0]).replace(kb, "k_") for x in stores}
+                base_w = swant[:-3] if swant.endswith(".df") else swant
+                if tg and all(t.startswith(base_w) for t in tg):
+                    insts.append(R.ok("C16.R11", key, file, f.lineno, idiom=f"{sorted(tg)[0]} = value"))
+                else:
+                    insts.append(R.viol("C16.R11", key, file, f.lineno,
+                                        f"the generated setter stores into {sorted(tg)}, not '{swant}'", construct=f"{deco}.setter: {sorted(tg)}"))
+        reg = [x for x in lp.body if isinstance(x, ast.Expr) and isinstance(x.value, ast.Call) and unparse(x.value.func) == "setattr"]
+        ok_reg = len(reg) == 1 and len(reg[0].value.args) == 3 and unparse(reg[0].value.args[1]) == kvar and \
+            unparse(reg[0].value.args[2]) == "property(getter, setter)"
+        insts.append(R.ok("C16.R11", f"{deco}.register", file, lp.lineno, idiom=f"setattr(cl, {kvar}, property(getter, setter))") if ok_reg else
+                     R.viol("C16.R11", f"{deco}.register", file, lp.lineno,
+                            "the generated accessor pair is not registered under its own key as property(getter, setter)",
+                            construct="; ".join(unparse(r) for r in reg) or "no setattr"))
+    return insts
+
+
 SPECS = [
     RuleSpec("C16.R1", rule_r1, 2, "A7", "int index is positional; other indices re-wrap df[...] in the receiver's class"),
     RuleSpec("C16.R2", rule_r2, 2, "A7", "__len__ = rows; __iter__ yields one item per row in row order"),
@@ -571,6 +638,7 @@ SPECS = [
     RuleSpec("C16.R8", rule_r8, 37, "A2", "default / empty / from_dict frames = declared fields"),
     RuleSpec("C16.R9", rule_r9, 2, "M0", "row -> item filter keeps exactly the declared fields"),
     RuleSpec("C16.R10", rule_r10, 3, "A7", "hold ends: head_offset = offset, tail_offset = offset + length"),
+    RuleSpec("C16.R11", rule_r11, 12, "M0", "Property.py generators: each accessor reads/writes its own key (bound per iteration) of the right store"),
 ]
 
 META = dict(
